@@ -122,12 +122,14 @@ fn eval_npy(_ctx: &Ctx, case: &NpyCase) -> Verdict {
     let last: Vec<u8> = bytes[bytes.len() - item..].to_vec();
     for extra in 1..=16usize {
         let r = crate::engine::splitmix64(case.seed ^ (extra as u64) << 32);
-        let fills: [Vec<u8>; 5] = [
+        let fills: [Vec<u8>; 6] = [
             vec![0u8; extra],
             (0..extra).map(|i| (r >> ((i % 8) * 8)) as u8 | 1).collect(),
             last.iter().cycle().take(extra).copied().collect(),
             vec![b'\n'; extra],
             vec![b' '; extra],
+            // the beginning of another npy file (two arrays saved to one stream)
+            bytes.iter().cycle().take(extra).copied().collect(),
         ];
         for (k, fill) in fills.iter().enumerate() {
             let mut ext = bytes.clone();
@@ -138,6 +140,16 @@ fn eval_npy(_ctx: &Ctx, case: &NpyCase) -> Verdict {
                 delicate += 1;
             }
         }
+    }
+    // the file followed by a complete second copy of itself, and by the header of a second file
+    {
+        let mut twice = bytes.clone();
+        twice.extend(&bytes);
+        must_reject(&twice, &format!("{:?} shape {:?}: the file followed by a second copy of itself", case.source, case.shape))?;
+        let mut with_header = bytes.clone();
+        with_header.extend(&bytes[..data_start]);
+        must_reject(&with_header, &format!("{:?} shape {:?}: the file followed by a second npy header", case.source, case.shape))?;
+        damaged += 2;
     }
     // value count differing from the declared shape by whole values (header edited)
     for delta in [-2i64, -1, 1, 2, 7] {
@@ -342,7 +354,7 @@ fn cli_strategy() -> impl Strategy<Value = CliCase> {
     (
         prop_oneof![
             3 => (npy_strategy(), any::<u16>(), any::<bool>()).prop_map(|(file, cut, delicate)| CliDamage::NpyTruncate { file, cut, delicate }),
-            3 => (npy_strategy(), 1usize..=16, 0u8..6).prop_map(|(file, extra, fill)| CliDamage::NpyExtend { file, extra, fill }),
+            3 => (npy_strategy(), 1usize..=16, 0u8..7).prop_map(|(file, extra, fill)| CliDamage::NpyExtend { file, extra, fill }),
             3 => text_strategy().prop_map(CliDamage::Text),
         ],
         any::<bool>(),
@@ -352,6 +364,8 @@ fn cli_strategy() -> impl Strategy<Value = CliCase> {
 
 fn eval_cli(ctx: &Ctx, case: &CliCase) -> Verdict {
     let dir = ctx.worker_dir(crate::engine::worker_id());
+    // for extensions: where the valid file ends (the damaged bytes may arrive in two writes)
+    let mut split_at: Option<usize> = None;
     let (bytes, what, label) = match &case.damage {
         CliDamage::NpyTruncate { file, cut, delicate } => {
             let (bytes, item) = npy_file(file)?;
@@ -374,8 +388,11 @@ fn eval_cli(ctx: &Ctx, case: &CliCase) -> Verdict {
                 2 => vec![b'\n'],
                 3 => vec![b' '],
                 4 => vec![b'\r', b'\n'],
-                _ => vec![b'\t'],
+                5 => vec![b'\t'],
+                // the beginning of the file itself (npy magic and header)
+                _ => bytes.clone(),
             };
+            split_at = Some(bytes.len());
             bytes.extend(pattern.iter().cycle().take(*extra));
             (bytes, format!("npy extended by {extra} bytes of fill kind {fill} ({:?}, shape {:?})", file.source, file.shape), "npy-extended")
         }
@@ -403,7 +420,15 @@ fn eval_cli(ctx: &Ctx, case: &CliCase) -> Verdict {
         let _ = std::fs::remove_file(dir.join("out.npy"));
         let _ = std::fs::remove_file(dir.join("out.sfs"));
         let run = if case.stdin {
-            cli::sfs(ctx, &args, Input::File(&path), &dir)
+            match split_at {
+                // the valid part in one write, the surplus after the pipe has drained: what arrives
+                // first must not be taken for the whole input
+                Some(first) if (bytes.len() + cmd.len()) % 2 == 0 => {
+                    let argv: Vec<&str> = args.iter().map(|a| a.as_str()).collect();
+                    crate::props::c18::run_with_paced_stdin(ctx, &argv, &bytes, first, &dir)?
+                }
+                _ => cli::sfs(ctx, &args, Input::File(&path), &dir),
+            }
         } else {
             args.push(name.into());
             cli::sfs(ctx, &args, Input::Null, &dir)
@@ -442,7 +467,7 @@ pub fn check(ctx: &Ctx) -> Check {
     let parts: Vec<Box<dyn Part>> = vec![
         Box::new(RandomPart {
             name: "npy-faults",
-            rule: "valid npy files from sfs's writer and from the numpy-layout writer (all 10 dtypes, both byte orders, versions 1/2/3, 1..5 axes, >=1 element; one file in seven has a data section that is a whole multiple of, or just beside, 512 B .. 128 KiB): EVERY truncation offset 0..len-1 (files above 2000 bytes: header, first and last 80 data bytes, 20 bytes either side of every multiple of 512), every extension by 1..16 bytes (zeros / random / copy of the last value / line feeds / spaces), and value counts off by whole values are fed to Array::read_npy, which must return Err (no Ok, no panic); the undamaged file must be accepted; non-trivial = the sweep contains cuts at a value boundary, in the padding or in the header-length field (always true); distinct by file",
+            rule: "valid npy files from sfs's writer and from the numpy-layout writer (all 10 dtypes, both byte orders, versions 1/2/3, 1..5 axes, >=1 element; one file in seven has a data section that is a whole multiple of, or just beside, 512 B .. 128 KiB): EVERY truncation offset 0..len-1 (files above 2000 bytes: header, first and last 80 data bytes, 20 bytes either side of every multiple of 512), every extension by 1..16 bytes (zeros / random / copy of the last value / line feeds / spaces / the beginning of a second npy file), the file followed by a copy of itself or of its header, and value counts off by whole values are fed to Array::read_npy, which must return Err (no Ok, no panic); the undamaged file must be accepted; non-trivial = the sweep contains cuts at a value boundary, in the padding or in the header-length field (always true); distinct by file",
             cases: ctx.tier.pick(1000, 50_000),
             strategy: Box::new(|| npy_strategy().boxed()),
             eval: Box::new(eval_npy),
@@ -456,7 +481,7 @@ pub fn check(ctx: &Ctx) -> Check {
         }),
         Box::new(RandomPart {
             name: "cli-faults",
-            rule: "a sample of the damaged npy/text files through `sfs view`, `fold`, `stat -s sum` (+ `view -O npy|text`, `fold -O npy`, `view -O npy -o FILE`, `fold -o FILE`, `stat -H`), by path (file named .bin, .npy, .sfs, .txt or without extension, whatever its content) and on stdin: exit status non-zero, diagnostic on stderr, stdout and the -o file without #SHAPE, npy magic or a numeric row",
+            rule: "a sample of the damaged npy/text files through `sfs view`, `fold`, `stat -s sum` (+ `view -O npy|text`, `fold -O npy`, `view -O npy -o FILE`, `fold -o FILE`, `stat -H`), on stdin also in two writes split exactly where the valid file ends; by path (file named .bin, .npy, .sfs, .txt or without extension, whatever its content) and on stdin: exit status non-zero, diagnostic on stderr, stdout and the -o file without #SHAPE, npy magic or a numeric row",
             cases: ctx.tier.pick(500, 15_000),
             strategy: Box::new(|| cli_strategy().boxed()),
             eval: Box::new(eval_cli),
